@@ -500,6 +500,7 @@ func ruleMigrateRound2(c *Ctx) {
 		ruleChanDirMapping(c, "C14.16", migPkg)
 		ruleConverterHomeIsWirePackage(c, "C14.17")
 		ruleLoadErrorsOfEveryPackage(c, "C14.18")
+		rulePatternImportWalkComplete(c, "C14.19")
 		ruleLoopsMakeProgress(c, "C14.12", migPkg)
 		ruleInspectVisitsEverything(c, "C14.11")
 	}
